@@ -169,7 +169,7 @@ public:
              std::size_t maxQueueSize = 1024,
              std::function<void(std::exception_ptr)> onTaskError = nullptr,
              ShutdownMode shutdownMode = ShutdownMode::IMMEDIATE)
-      : _initialSize(initialSize), _maxSize(maxSize), _idleTimeout(idleTimeout),
+      : _initialSize(initialSize), _maxSize(effectiveMaxSize(initialSize, maxSize)), _idleTimeout(idleTimeout),
         _maxQueueSize(maxQueueSize), _shutdown(false), _activeThreads(0), _busyThreads(0),
         _onTaskError(std::move(onTaskError)), _shutdownMode(shutdownMode)
   {
@@ -703,6 +703,15 @@ public:
   }
 
 private:
+  /// The worker limit actually used: at least one worker (with 0 no accepted task could
+  /// ever run - and 0 is what the default arguments yield when hardware_concurrency()
+  /// reports 0), and never below the number of workers the constructor starts.
+  static std::size_t effectiveMaxSize(std::size_t initialSize, std::size_t maxSize)
+  {
+    std::size_t atLeast = initialSize > 0 ? initialSize : 1;
+    return maxSize < atLeast ? atLeast : maxSize;
+  }
+
   void enqueueImpl(std::function<void()> f)
   {
     // Check if accepting new work (for graceful drain support)
